@@ -453,6 +453,9 @@ _C14 = [
     {'module': 'boltons.strutils', 'qualname': 'format_int_list', 'lean_name': 'format_int_list',
      'params': {'int_list': 'List Int', 'delim': 'Str', 'range_delim': 'Str', 'delim_space': 'Bool'},
      'kind': 'function', 'result': 'Str', 'raises': True, 'tie_theorem': 'C14.src_format_int_list_eq_model'},
+    {'module': 'boltons.strutils', 'qualname': 'parse_int_list', 'lean_name': 'parse_int_list',
+     'params': {'range_string': 'Str', 'delim': 'Str', 'range_delim': 'Str'},
+     'kind': 'function', 'result': 'List Int', 'raises': True, 'tie_theorem': 'C14.src_parse_int_list_eq_model'},
 ]
 for _sp in _C14:
     _sp.update(ext='py2lean_c14', gen_file=_C14_GEN)
